@@ -84,6 +84,7 @@ def run(ctx):
         ctx.ob('C10.a', key + (':fields' if not ok else ''), ok, msg, ci.mod.rel, line, construct=key)
 
     holder_triple_rule(ctx, 'C10.i')
+    sweep_rewrite_length_rule(ctx, 'C10.j')
     ctx.decided.append('C10.i classes whose constructor accepts symbolic-capable values implement the parameter protocols')
 
     # ------------------------------------------------------------------ C10.a2
@@ -391,3 +392,56 @@ def holder_triple_rule(ctx, rid='C10.i'):
         ctx.ob(rid, f'{ci.qual}:holds:{why[0]}', ok, ('tabled: ' + ex) if (ex and miss) else '' if ok else
                f'__init__ takes `{why[0]}: {why[1]}`, which can carry a sympy symbol, but the class has no {miss}: the symbol is invisible to is_parameterized / parameter_names and '
                'resolve_parameters returns the object unchanged', ci.mod.rel, init.lineno)
+
+
+def sweep_rewrite_length_rule(ctx, rid='C10.j'):
+    """A function that rebuilds a sweep point by point yields one point per point of the source."""
+    repo = ctx.repo
+    ctx.decided.append(f'{rid} sweep rewrites (a loop over a sweep whose accumulator becomes a ListSweep) append exactly one entry per point, into a list')
+    ctx.rule(rid, 'one point out per point in: where a function builds `ListSweep(acc)` from a loop over a sweep, `acc` starts as an empty list and the loop body appends to it '
+             'unconditionally exactly once per iteration - an accumulator that merges equal points (dict / set) or a conditional append changes the number of points of the sweep, '
+             'so results no longer line up with the points the caller asked for', floor=1, style='MPT')
+    n = 0
+    for mod, ci, fn in repo.all_functions():
+        if mod.rel.endswith('_test.py'):
+            continue
+        for call in ast.walk(fn):
+            if isinstance(call, ast.Call) and call_name(call).split('.')[-1] == 'ListSweep' and len(call.args) == 1 and isinstance(call.args[0], ast.ListComp):
+                flt = [i for g in call.args[0].generators for i in g.ifs]
+                n += 1
+                ctx.ob(rid, f'{mod.name}.{(ci.name + ".") if ci else ""}{fn.name}:comprehension', not flt,
+                       f'the comprehension filters points (`if {ast.unparse(flt[0])}`)' if flt else '', mod.rel, call.lineno)
+                continue
+            if not (isinstance(call, ast.Call) and call_name(call).split('.')[-1] == 'ListSweep' and len(call.args) == 1 and isinstance(call.args[0], ast.Name)):
+                continue
+            acc = call.args[0].id
+            inits = [a for a in ast.walk(fn) if isinstance(a, (ast.Assign, ast.AnnAssign)) and a.value is not None
+                     and any(isinstance(t, ast.Name) and t.id == acc for t in (a.targets if isinstance(a, ast.Assign) else [a.target]))]
+            loops = [l for l in ast.walk(fn) if isinstance(l, ast.For) and any(
+                isinstance(x, ast.Name) and x.id == acc for s in l.body for x in ast.walk(s))]
+            if not inits or not loops:
+                continue
+            init = inits[0].value
+            empty = (isinstance(init, (ast.List, ast.Dict, ast.Set)) and not getattr(init, 'elts', getattr(init, 'keys', []))) or \
+                (isinstance(init, ast.Call) and call_name(init) in ('list', 'dict', 'set') and not init.args)
+            if not empty:
+                continue  # pre-sized result filled by position (Sweep.__getitem__): a different shape, decided by nobody here
+            loop = loops[0]
+            key = f'{mod.name}.{(ci.name + ".") if ci else ""}{fn.name}:{acc}'
+            n += 1
+            msg = ''
+            if not (isinstance(init, ast.List) or (isinstance(init, ast.Call) and call_name(init) == 'list')):
+                msg = f'accumulator `{acc}` starts as `{ast.unparse(init)}`: equal points collapse into one'
+            else:
+                top = [s for s in loop.body if isinstance(s, ast.Expr) and isinstance(s.value, ast.Call) and isinstance(s.value.func, ast.Attribute)
+                       and isinstance(s.value.func.value, ast.Name) and s.value.func.value.id == acc and s.value.func.attr == 'append']
+                others = [x for s in loop.body for x in ast.walk(s) if isinstance(x, ast.Call) and isinstance(x.func, ast.Attribute)
+                          and isinstance(x.func.value, ast.Name) and x.func.value.id == acc and x not in [t.value for t in top]]
+                skips = [x for s in loop.body for x in ast.walk(s) if isinstance(x, (ast.Continue, ast.Break))]
+                if len(top) != 1 or others:
+                    msg = f'`{acc}` is not appended to exactly once, unconditionally, per point ({len(top)} top-level append(s), {len(others)} other call(s))'
+                elif skips:
+                    msg = f'the loop can skip or stop before the append (`{ast.unparse(skips[0])}`)'
+            ctx.ob(rid, key, not msg, msg, mod.rel, loop.lineno)
+    if n == 0:
+        raise AnalysisError('no sweep rewrite found (ListSweep(acc) after a loop filling acc)')
